@@ -30,6 +30,8 @@ import tbot.role
 from tbot import machine
 
 tbot.log.VERBOSITY = -1
+# generators that are finalised by the garbage collector (only on a tree with the F9 defect) must not spam stderr
+sys.unraisablehook = lambda *a: None
 
 try:
     import _pytest.outcomes as _po
